@@ -77,6 +77,13 @@ const maxDepth = 200
 type internalErr struct{ msg string }
 
 func (e *Exec) callFn(fn *ssa.Function, args []Value, bind []Value) (Value, *GoPanic) {
+	if e.overrides != nil {
+		if o, ok := e.overrides[fn.String()]; ok && !e.inOverride {
+			e.inOverride = true
+			defer func() { e.inOverride = false }()
+			return e.invoke(deferred{fn: o, args: args})
+		}
+	}
 	if h := e.w.intercept(e, fn); h != nil {
 		return h(e, fn, args)
 	}
